@@ -219,6 +219,13 @@ Definition check_hung (v : tval) : bool :=
   let s := run _ _ (lstep (vbool (vnth 1 v))) (linit, [LSpawn; LReport; LTimer; LBackend]) [0; 1; 0; 2; 0; 0; 0; 1] in
   Bool.eqb (match nth_error (snd s) 0 with Some LDone => true | _ => false end) (vbool (vnth 2 v)).
 
+(* ---- kind 17: CopyWithControl leaving through the context check / at EOF ---- *)
+(* [17; ctx_flush; tail_flush; defer_flush; threshold; chunk; delivered reads; via_ctx; obs counter; obs total] *)
+Definition check_copy (v : tval) : bool :=
+  let s := cp_run (vbool (vnth 1 v)) (vbool (vnth 2 v)) (vbool (vnth 3 v)) (vn (vnth 4 v))
+                  (repeat (vn (vnth 5 v)) (vnat (vnth 6 v))) (vbool (vnth 7 v)) in
+  N.eqb (cp_counter s) (vn (vnth 8 v)) && N.eqb (cp_total s) (vn (vnth 9 v)).
+
 Definition check (v : tval) : bool :=
   match vnat (vnth 0 v) with
   | 0 => check_dispose v
@@ -238,6 +245,7 @@ Definition check (v : tval) : bool :=
   | 14 => check_throttle v
   | 15 => check_stats v
   | 16 => check_hung v
+  | 17 => check_copy v
   | _ => false
   end.
 
